@@ -514,3 +514,82 @@ func ResultConv(sig *types.Signature) (conv Conv, idx int, ok bool) {
 	}
 	return 0, 0, false
 }
+
+// ---------------------------------------------------------------- finite orderings
+
+// OrderingReturns evaluates a function whose relevant branch conditions are
+// comparisons between the two values a and b: for each of the three possible
+// orderings of (a,b) ("<", "=", ">") it follows only the branch edges
+// consistent with that ordering (conditions that are not comparisons of a and
+// b keep both edges) and reports which returns are reachable.
+func OrderingReturns(fn *ssa.Function, a, b ssa.Value) map[string][]*ssa.Return {
+	out := map[string][]*ssa.Return{}
+	for _, ord := range []string{"<", "=", ">"} {
+		cut := func(blk *ssa.BasicBlock, si int) bool {
+			ifi := IfOf(blk)
+			if ifi == nil {
+				return false
+			}
+			bo, ok := ifi.Cond.(*ssa.BinOp)
+			if !ok {
+				return false
+			}
+			var o string
+			switch {
+			case Strip(bo.X) == Strip(a) && Strip(bo.Y) == Strip(b):
+				o = ord
+			case Strip(bo.X) == Strip(b) && Strip(bo.Y) == Strip(a):
+				o = map[string]string{"<": ">", "=": "=", ">": "<"}[ord]
+			default:
+				return false
+			}
+			var val bool
+			switch bo.Op {
+			case token.LSS:
+				val = o == "<"
+			case token.LEQ:
+				val = o != ">"
+			case token.GTR:
+				val = o == ">"
+			case token.GEQ:
+				val = o != "<"
+			case token.EQL:
+				val = o == "="
+			case token.NEQ:
+				val = o != "="
+			default:
+				return false
+			}
+			// cut the edge that is NOT taken
+			if val {
+				return si == 1
+			}
+			return si == 0
+		}
+		rs := Reach([]Point{EntryOf(fn)}, nil, cut)
+		for _, r := range Returns(fn) {
+			if rs.Has(r) {
+				out[ord] = append(out[ord], r)
+			}
+		}
+	}
+	return out
+}
+
+// InLoop reports whether instruction in lies on a CFG cycle of its function.
+func InLoop(in ssa.Instruction) bool {
+	b := in.Block()
+	rs := Reach([]Point{After(in)}, nil, nil)
+	return rs.Has(in) || func() bool {
+		// reached the start of its own block again
+		for _, x := range b.Instrs {
+			if x == in {
+				break
+			}
+			if rs.Has(x) {
+				return true
+			}
+		}
+		return false
+	}()
+}
